@@ -8,7 +8,10 @@ vars == <<l, bad, free>>
 \* the token a bytecode offset on line 0 lands on (tokens are strictly ordered in these documents)
 TokenAt(ts, off) == LET c == {i \in DOMAIN ts : PosLe(Pos(ts[i]), <<0, off>>)} IN
                     IF c = {} THEN 0 ELSE CHOOSE i \in c : \A j \in c : j <= i
-OffsetScope(d, ts, off) == IF TokenAt(ts, off) = 0 THEN <<>> ELSE TokenScope(d, ts[TokenAt(ts, off)])
+\* a lookup inside a range token reports the original column advanced by the distance (C07), and the scope
+\* is that of the reported position
+Shifted(t, off) == IF Rg(t) = 1 /\ Dl(t) = 0 THEN Tok(Dl(t), Dc(t), Src(t), Sl(t), Sc(t) + (off - Dc(t)), Nm(t), Rg(t)) ELSE t
+OffsetScope(d, ts, off) == IF TokenAt(ts, off) = 0 THEN <<>> ELSE TokenScope(d, Shifted(ts[TokenAt(ts, off)], off))
 Judge(e) ==
     LET d == e.args.doc  o == e.out IN
     /\ e.op = "hermes"
